@@ -45,6 +45,22 @@ package validator
 //@ func ValidateRandNParams
 //@   ensures[C09,C18] iff(err == nil, s > 0)
 
+// TensorOf's input: a float64 or a 1..4-fold nested slice of float64 (the generic constraint of tensor.TensorOf), accepted
+// exactly when it is rectangular with no empty dimension.
+//@ define rect1(v) := len(v) >= 1
+//@ define rect2(v) := len(v) >= 1 && len(v[0]) >= 1 && forall(a, 0, len(v), len(v[a]) == len(v[0]))
+//@ define rect3(v) := len(v) >= 1 && len(v[0]) >= 1 && len(v[0][0]) >= 1 && forall(a, 0, len(v), len(v[a]) == len(v[0]) && forall(b, 0, len(v[0]), len(v[a][b]) == len(v[0][0])))
+//@ define rect4(v) := len(v) >= 1 && len(v[0]) >= 1 && len(v[0][0]) >= 1 && len(v[0][0][0]) >= 1
+//@                    && forall(a, 0, len(v), len(v[a]) == len(v[0]) && forall(b, 0, len(v[0]), len(v[a][b]) == len(v[0][0]) && forall(c, 0, len(v[0][0]), len(v[a][b][c]) == len(v[0][0][0]))))
+//@ define nestType(d) := isF(d) || isNest(d, 1) || isNest(d, 2) || isNest(d, 3) || isNest(d, 4)
+//@ define inputOK(d) := isF(d) || (isNest(d, 1) && rect1(asNest(d, 1))) || (isNest(d, 2) && rect2(asNest(d, 2))) || (isNest(d, 3) && rect3(asNest(d, 3))) || (isNest(d, 4) && rect4(asNest(d, 4)))
+//@ func ValidateInputDataDimUnity
+//@   requires nestType(data)
+//@   ensures[C09,C06] (err == nil) == inputOK(data)
+//@   loop 0 invariant err == nil && forall(a, 0, _i0, len(v[a]) == dim && rect1(v[a]))
+//@   loop 1 invariant err == nil && forall(a, 0, _i1, len(v[a]) == dim && rect2(v[a]) && len(v[a][0]) == len(v[0][0]))
+//@   loop 2 invariant err == nil && forall(a, 0, _i2, len(v[a]) == dim && rect3(v[a]) && len(v[a][0]) == len(v[0][0]) && len(v[a][0][0]) == len(v[0][0][0]))
+
 //@ func ValidateConcatTensorsDimsAlongDim
 //@   requires len(tsDims) >= 1
 //@   ensures[C09,C06] iff(err == nil, forall(a, 0, len(tsDims), len(tsDims[a]) > 0 && len(tsDims[a]) == len(tsDims[0])
